@@ -8,6 +8,10 @@
 //! `VIOLATION property=<id> replay=<path>` line), 2 harness error.
 
 mod c03;
+mod c06;
+mod c08;
+mod c17;
+mod c18;
 mod common;
 mod gen;
 mod minimise;
@@ -17,6 +21,7 @@ mod rng;
 mod runner;
 mod simw;
 mod stats;
+mod streams;
 mod trace;
 
 use std::process::ExitCode;
